@@ -54,6 +54,11 @@ def stages():
         "average_power": (lambda: K.AveragePowerConstraint(1.5), True, True, "gradcheck"),
         "per_antenna_power": (lambda: K.PerAntennaPowerConstraint(uniform_power=0.7), True, True, "gradcheck"),
         "papr": (lambda: K.PAPRConstraint(max_papr=3.0), True, True, "gradcheck_papr"),
+        # tighter and looser limits reach other phases of the iterative clipping
+        "papr_1.2": (lambda: K.PAPRConstraint(max_papr=1.2), True, True, "gradcheck_papr"),
+        "papr_1.5": (lambda: K.PAPRConstraint(max_papr=1.5), True, True, "gradcheck_papr"),
+        "papr_2": (lambda: K.PAPRConstraint(max_papr=2.0), True, True, "gradcheck_papr"),
+        "papr_6": (lambda: K.PAPRConstraint(max_papr=6.0), True, True, "gradcheck_papr"),
         "peak_amplitude": (lambda: K.PeakAmplitudeConstraint(1.0), True, True, "gradcheck_peak"),
     }
 
@@ -105,7 +110,7 @@ def check_grad(ctx, cell, case):
         # derivative must be stable between eps and eps/4, otherwise the direction crosses a kink and is skipped.
         with torch.no_grad():
             p = x.abs() ** 2
-            active = float(p.max() / p.mean()) > 0.9 * 3.0 * 0.98
+            active = float(p.max() / p.mean()) > 0.9 * float(mod.max_papr) * 0.98
         if active:
             ctx.cls("papr_clipping_active_cases")
             for d in range(6):
@@ -162,6 +167,9 @@ def unit_grads(ctx, names):
             if name.startswith("ray") or name.startswith("ric"):
                 shapes = [(10,), (2, 9)]
             extra_seeds = range(5) if ctx.tier == "thorough" else range(1)
+            if name.startswith("papr"):
+                shapes = [(12,), (3, 8), (24,), (1, 24)]
+                extra_seeds = range(6) if ctx.tier == "thorough" else range(2)
             for shape in shapes + ([(2, 3, 4, 5)] if (ctx.tier == "thorough" and name != "per_antenna_power") else []):
                 for scale in (0.3, 1.0, 5.0) if mode != "gradcheck_peak" else (1.0,):
                     for es in extra_seeds:
